@@ -182,7 +182,7 @@ func c16Gen(t *rapid.T) c16Case {
 	// repeat counts: floods of thousands are drawn per case, not per write (cost)
 	hi, top := 200, 10500
 	if vp.Thorough() {
-		hi, top = 1000, 20000
+		hi, top = 400, 20000
 	}
 	count := rapid.OneOf(rapid.IntRange(1, 3), rapid.IntRange(1, 3), rapid.IntRange(1, 3), rapid.IntRange(4, 40))
 	switch {
